@@ -12,7 +12,7 @@ EXPLANATION = LEVEL_TEXT
 EXTRA_ASSUMPTIONS = [
     "A4: gymnasium Space.__contains__ -> contains; Discrete.contains accepts integers in [start, start+n) only; Space.sample returns a member",
     "TRUSTED: the contracts of an action space have pairwise distinct static hashes (PortfolioSpace.__init__ rejects duplicates; the source notes the FutureChain/Future corner)",
-    "ASSUMED contracts: TradingEnv._process_latent_events/_process_nonlatent_events, notify, IState.__call__",
+    "ASSUMED contracts: IState.__call__, Transmitter._next; input assumption of TradingEnv._process_*_events: delivered quotes stay within the property's quantifier",
 ]
 
 from shell import c08 as _c08
